@@ -311,13 +311,18 @@ Definition busy_pc (p : pcT) : bool := match p with TL1 | TDeq | TU1t | TRun | T
 Definition Ibusy (s : st) : Prop := busy s = length (filter (fun t => busy_pc (pc (th s t))) (workers s)).
 Definition Icap (c : cfg) (s : st) : Prop := length (regs s) <= nthreads c * (1 + ovf c).
 
+Lemma filter_none_l : forall A (f : A -> bool) l, (forall x, In x l -> f x = false) -> filter f l = [].
+Proof.
+  induction l as [|a l IH]; simpl; intros H; [reflexivity|]. rewrite (H a (or_introl eq_refl)). apply IH. auto.
+Qed.
+
 Lemma Icap_step : forall c s t e s', Icap c s -> step c s t e = Some s' -> Icap c s'.
 Proof.
   intros c s t e s' I H. unfold Icap in *.
   tcases H; simpl; auto; unfold spawn_cond in *; norm_hyps; rewrite ?app_length; simpl; try lia.
   assert (X : length (remove_first t (regs s)) <= length (regs s)).
-  { clear. induction (regs s) as [|a l IH]; simpl; [lia|]. destruct (a =? t); simpl; lia. }
-  change (1 + ovf c) with (S (ovf c)) in *. lia.
+  { clear. induction (regs s) as [|a l IH]; simpl; [lia|]. destruct (a =? t); simpl; unfold tid in *; lia. }
+  change (1 + ovf c) with (S (ovf c)) in *. unfold tid in *. lia.
 Qed.
 
 Lemma filter_len_upd : forall (f g : nat -> bool) t l, NoDup l -> In t l -> (forall u, u <> t -> g u = f u) ->
@@ -348,23 +353,55 @@ Proof.
          [intros u Hu; destruct (Nat.eqb_spec u t); [contradiction|reflexivity]
          |intros Hin; rewrite Nat.eqb_refl; simpl; rewrite ?E; try reflexivity;
           assert (X := IW _ Hin); rewrite E in X; discriminate X]; fail).
+  1,2: (* spawn *)
+    (match goal with |- context [if ?b then [?ch] else []] =>
+       assert (B : b = false) by (unfold upd; destruct (Nat.eqb_spec ch t); [contradiction|]; rewrite Nat.eqb_refl; reflexivity);
+       rewrite B; simpl; rewrite I, Nat.add_0_r; f_equal; apply filter_ext_in; intros u Hu; unfold upd;
+       destruct (Nat.eqb_spec u t) as [->|Nu]; simpl; [rewrite E; reflexivity|];
+       destruct (Nat.eqb_spec u ch) as [->|Nu2]; simpl; [|reflexivity];
+       assert (X := IW _ Hu); rewrite E4 in X; discriminate X
+     end).
   - (* TTop -> TL1 : ++num_threads_busy *)
     assert (X := filter_len_upd (fun u => busy_pc (pc (th s u)))
-                   (fun u => busy_pc (pc (upd (th s) t (setpc (th s t) TL1) u))) t (workers s) ND (Wt ltac:(rewrite E; reflexivity))).
-    simpl in X. unfold upd in X at 2. rewrite Nat.eqb_refl, E in X. simpl in X. rewrite I.
-    rewrite <- X; [lia|]. intros u Hu. unfold upd. destruct (Nat.eqb_spec u t); [contradiction|reflexivity].
+                   (fun u => busy_pc (pc (upd (th s) t (setpc (th s t) TL1) u))) t (workers s) ND (Wt eq_refl)).
+    simpl in X. rewrite upd_same, E in X. simpl in X. rewrite I.
+    assert (Y : forall u, u <> t -> busy_pc (pc (upd (th s) t (setpc (th s t) TL1) u)) = busy_pc (pc (th s u)))
+      by (intros u Hu; rewrite upd_other by exact Hu; reflexivity).
+    specialize (X Y). unfold tid in *. lia.
   - (* TU1 -> TL2 : --num_threads_busy *)
     assert (X := filter_len_upd (fun u => busy_pc (pc (th s u)))
-                   (fun u => busy_pc (pc (upd (th s) t (setpc (th s t) TL2) u))) t (workers s) ND (Wt ltac:(rewrite E; reflexivity))).
-    simpl in X. unfold upd in X at 2. rewrite Nat.eqb_refl, E in X. simpl in X. rewrite I.
-    rewrite <- (Nat.add_0_r (length (filter _ (workers s)))) in X at 1.
+                   (fun u => busy_pc (pc (upd (th s) t (setpc (th s t) TL2) u))) t (workers s) ND (Wt eq_refl)).
+    simpl in X. rewrite upd_same, E in X. simpl in X. rewrite I.
     assert (Y : forall u, u <> t -> busy_pc (pc (upd (th s) t (setpc (th s t) TL2) u)) = busy_pc (pc (th s u)))
-      by (intros u Hu; unfold upd; destruct (Nat.eqb_spec u t); [contradiction|reflexivity]).
-    specialize (X Y). lia.
-  - (* spawn *)
-    unfold upd at 1. destruct (Nat.eqb_spec child t); [contradiction|]. rewrite Nat.eqb_refl. simpl. rewrite I, Nat.add_0_r.
-    symmetry. f_equal. apply filter_ext_in. intros u Hu. unfold upd.
-    destruct (Nat.eqb_spec u t) as [->|Nu]; simpl; [rewrite E; reflexivity|].
-    destruct (Nat.eqb_spec u child) as [->|Nu2]; simpl; [|reflexivity].
-    assert (X := IW _ Hu). rewrite E4 in X. discriminate X.
+      by (intros u Hu; rewrite upd_other by exact Hu; reflexivity).
+    specialize (X Y). unfold tid in *. lia.
+Qed.
+
+Record BInv (c : cfg) (s : st) : Prop := mkBInv { b_inv : Inv c s; b_busy : Ibusy s; b_cap : Icap c s }.
+
+Lemma BInv_R : forall c s, R c s -> BInv c s.
+Proof.
+  intros c s H. eapply invariant_reachable; [| |exact H].
+  - constructor; [apply Inv_init| |].
+    + unfold Ibusy. simpl. symmetry. apply length_zero_iff_nil. apply filter_none_l. intros x Hx.
+      destruct (x <? nthreads c); reflexivity.
+    + unfold Icap. simpl. rewrite seq_length. lia.
+  - intros s0 t e s1 [V B C] Hs. destruct V. constructor.
+    + eapply Inv_step; [|exact Hs]. constructor; assumption.
+    + eapply Ibusy_step; eauto.
+    + eapply Icap_step; eauto.
+Qed.
+
+(* iwtp_threads_busy_num returns the number of threads between `++num_threads_busy` and `--num_threads_busy`; it never exceeds
+   the number of registered threads, which never exceeds num_threads * (1 + overflow_threads_factor) (iwtp.h) *)
+Theorem busy_num_exact : forall c s t s', R c s -> step c s t EUnlock = Some s' -> pc (th s t) = Locked -> fn (th s t) = 5 ->
+  pc (th s' t) = Ret (busy s) false /\
+  busy s = length (filter (fun u => busy_pc (pc (th s u))) (workers s)) /\
+  busy s <= length (regs s) /\ length (regs s) <= nthreads c * (1 + ovf c).
+Proof.
+  intros c s t s' H Hs Hp Hf. destruct (BInv_R c s H) as [V B C]. destruct V.
+  split; [tcases Hs; try congruence; simpl; unfold upd; rewrite Nat.eqb_refl; reflexivity|].
+  split; [exact B|]. split; [|exact C].
+  rewrite B. apply NoDup_incl_length; [apply NoDup_filter; exact i_nw|].
+  intros u Hu. apply filter_In in Hu. destruct Hu as [_ Hb]. apply i_wk. destruct (pc (th s u)); try discriminate Hb; reflexivity.
 Qed.
